@@ -83,10 +83,10 @@ def validate_traces(chk, prop, trace_path):
 def driver_prop(rec):
     key = rec["key"]
     pid = key.split(":")[-1]
-    if pid.startswith(("bp", "big")):
-        return "C13"
     if pid.startswith("pack") or ":stream:" in key:
         return "C10"
+    if pid.startswith(("bp", "big")):
+        return "C13"
     if ":adv:" in key:
         return "C11"
     if pid.startswith("bp"):
